@@ -40,18 +40,20 @@ func runC02(c *Ctx) {
 	c.Min(3)
 	updCalls := callsTo(vote, updObj)
 	nPost := 0
-	for _, ci := range callInstrs(vote) {
+	isPost := func(in ssa.Instruction) bool {
+		ci, isCall := in.(ssa.CallInstruction)
+		if !isCall {
+			return false
+		}
 		o := calleeObj(ci)
 		if o == nil || (o.Name() != "AsyncPost" && o.Name() != "Post") {
-			continue
+			return false
 		}
 		args := callArgs(ci)
-		if len(args) == 0 {
-			continue
-		}
-		if !types.Identical(stripConv(args[0]).Type(), sendEv) {
-			continue
-		}
+		return len(args) > 0 && types.Identical(stripConv(args[0]).Type(), sendEv)
+	}
+	// the post itself, or the call of a split-off tail of vote that posts
+	for _, ci := range sitesVia(w, vote, isPost) {
 		nPost++
 		c.sites++
 		ok := false
@@ -332,6 +334,30 @@ func runC02(c *Ctx) {
 	for _, a := range newDB.AnonFuncs {
 		if len(a.Params) == 1 {
 			restore = a
+		}
+	}
+	if restore == nil {
+		// the closure may have become a function or method that NewVoteDB calls with each record read
+		for _, ci := range callInstrs(newDB) {
+			g := staticCallee(ci)
+			if g == nil || g.Blocks == nil || g.Pkg == nil || g.Pkg.Pkg.Path() != full(uconPkg) {
+				continue
+			}
+			takesItem := false
+			for _, prm := range g.Params {
+				if ownerName(prm.Type()) == "VoteItem" {
+					takesItem = true
+				}
+			}
+			writesMark := false
+			for _, fw := range fieldWrites(g) {
+				if fw.Field.Name() == "mark" {
+					writesMark = true
+				}
+			}
+			if takesItem && writesMark {
+				restore = g
+			}
 		}
 	}
 	if restore == nil {
